@@ -178,10 +178,14 @@ pub struct LazyObj {
 }
 
 thread_local! {
-    static PARENT: std::cell::RefCell<Option<Obj>> = const { std::cell::RefCell::new(None) };
+    /// (model instance id, parent state)
+    static PARENT: std::cell::RefCell<Option<(u64, Obj)>> = const { std::cell::RefCell::new(None) };
 }
+static NEXT_MODEL_ID: std::sync::atomic::AtomicU64 = std::sync::atomic::AtomicU64::new(1);
 
 pub struct TabModel {
+    /// distinguishes model instances in the per-thread memo
+    id: u64,
     pub cfg: Cfg,
     /// the event menu; the E-BFS engine sees events as indexes into it (compact histories)
     pub menu: Vec<Ev>,
@@ -225,7 +229,7 @@ fn complaint(key: &str, text: String) -> String {
 
 impl TabModel {
     pub fn new(cfg: Cfg) -> TabModel {
-        let mut m = TabModel { menu: Vec::new(), cfg, seen_answers: (0..4096).map(|_| Mutex::new(HashMap::new())).collect(), audit: Mutex::new(Vec::new()), audit_seen: Mutex::new(BTreeSet::new()) };
+        let mut m = TabModel { id: NEXT_MODEL_ID.fetch_add(1, std::sync::atomic::Ordering::Relaxed), menu: Vec::new(), cfg, seen_answers: (0..4096).map(|_| Mutex::new(HashMap::new())).collect(), audit: Mutex::new(Vec::new()), audit_seen: Mutex::new(BTreeSet::new()) };
         m.menu = m.events();
         m
     }
@@ -534,7 +538,7 @@ impl TabModel {
         let mut o = PARENT.with(|p| {
             let mut p = p.borrow_mut();
             match p.as_ref() {
-                Some(parent) if parent.history == prefix => parent.clone(),
+                Some((id, parent)) if *id == self.id && parent.history == prefix => parent.clone(),
                 _ => {
                     let mut o = self.fresh();
                     for e in prefix {
@@ -543,7 +547,7 @@ impl TabModel {
                             panic!("REPLAY-DIVERGENCE: accepted prefix fails on replay: {w}");
                         }
                     }
-                    *p = Some(o.clone());
+                    *p = Some((self.id, o.clone()));
                     o
                 }
             }
